@@ -514,3 +514,5 @@ def run(S):
     # 'exactly one of several concurrent creates succeeds' rests on the unique insert of put (shared with C01)
     from checks import shared
     shared.writers_revalidate(S)
+    # storage names are keys of the catalogue tree: 'a map from arbitrary byte-string names' needs the one key order
+    shared.key_order(S)
